@@ -10,6 +10,7 @@ VOCAB = [
     "# a comment\n", "z = f(x, y)\n", "plt.plot(x, y)\n", "data = load('file.csv')\n",
     "## Heading\n", "Some *markdown* text.\n", "- item one\n", "- item two\n", "r\u00e9sum\u00e9 = '\u00e5\u00e4\u00f6'\n",
     "assert z == 3\n", "x = 2\r\n", "del y\n", "class A:\n", "    pass\n", "%matplotlib inline\n",
+    "nul = '\x00'\n",      # U+0000 is valid in JSON and in a notebook; text-merge helpers refuse it
 ]
 KEYS = ["alpha", "beta", "gamma", "delta", "eps", "zeta"]
 MIMES = ["text/plain", "text/html", "image/png", "application/json", "image/svg+xml", "text/latex"]
